@@ -39,7 +39,8 @@ def confirm(prop, n, wt):
     mut, mut_out = suite(wt)
     shutil.copy(demo, os.path.join(wt, "scnr", "tests", demo_name + ".rs"))
     rc_m, out_m = sh(f"cargo test --offline -p scnr --test {demo_name} 2>&1 | tail -8", cwd=wt)
-    mut_fails = "test result: FAILED" in out_m or "panicked" in out_m
+    rc_m2, out_m2 = sh(f"cargo test --offline -p scnr --test {demo_name} 2>&1 | grep -E '^error' | head -3", cwd=wt)
+    mut_fails = "test result: FAILED" in out_m or "panicked" in out_m or "error[E" in out_m2 or "could not compile" in out_m
     os.remove(os.path.join(wt, "scnr", "tests", demo_name + ".rs"))
     sh("git checkout -- . ", cwd=wt)
     ok = applied and builds and base == mut and clean_ok and mut_fails and all("0 failed" in l for l in mut)
